@@ -53,17 +53,17 @@ def main():
             ck.violation("no change applies, yet exit status %d (stderr %r)" % (ob["rc"], ob["stderr"][:200]), rep)
         if ob["stderr"] != b"":
             ck.violation("no change applies, yet stderr is not empty: %r" % ob["stderr"][:200], rep)
-        exp = b""
+        exp = []
         for (ab, prov), f in zip(r["targets"], ff):
             content = sc.files[os.path.relpath(ab, ob["cwd"])]
-            skipped_gen = False
             if fl["print"] and not (fl["skip_generated"] and is_gen(f)):
-                exp += content
+                exp.append(("bytes", content))
             if fl["verbose"]:
-                exp += (("generated file %s: skipped\n" if (fl["skip_generated"] and is_gen(f)) else "%s: skipped\n") % ab).encode()
-        if ob["stdout"] != exp:
-            ck.violation("no change applies: stdout should be %s, got %r..." %
-                         ("the original bytes of each file" if fl["print"] else "empty (apart from -v lines)", ob["stdout"][:200]), rep)
+                exp.append(("log", ab))      # one -v line naming the file; its wording is not constrained
+        d = clicorr.match_stdout(ob["stdout"], exp)
+        if d:
+            ck.violation("no change applies: stdout should be %s: %s" %
+                         ("the original bytes of each file" if fl["print"] else "empty (apart from one -v line per file)", d), rep)
         for (ab, prov), f in zip(r["targets"], ff):
             content = sc.files[os.path.relpath(ab, ob["cwd"])]
             if f.get("api_panic") or f["api_err"] or unb64(f["api_out"]) != content:
